@@ -1,16 +1,47 @@
 /-
   Line-protocol driver for the executable models: one self-contained request per input line,
-  one output line per request.  First token selects the model.  Imports `Stab.Model.*` only
-  (no Mathlib, no Props), so it links as a native executable.
+  one output line per request.  The first token selects the model, the rest of the line is handed
+  to that model's `drive : String → String`.  Imports `Stab.Model.*` only (no Mathlib, no Props),
+  so it links as a native executable.
 -/
 import Stab.Model.Status
-
-open Stab
+import Stab.Model.Expr
+import Stab.Model.Topo
+import Stab.Model.Ready
+import Stab.Model.Jump
+import Stab.Model.Dedup
+import Stab.Model.Queue
+import Stab.Model.CasRow
+import Stab.Model.Retry
+import Stab.Model.Merge
+import Stab.Model.Codec
+import Stab.Model.Replay
+import Stab.Model.TxnScope
+import Stab.Model.ClaimProtocol
+import Stab.Model.Claims
+import Stab.Model.Engine
 
 def dispatch (line : String) : String :=
   let line := line.trimAscii.toString
-  match line.splitOn " " with
-  | "status" :: rest => Stab.Status.drive rest
+  let tok := (line.splitOn " ").headD ""
+  let rest := (line.drop (tok.length + 1)).toString
+  match tok with
+  | "status" => Stab.Status.drive rest
+  | "expr" => Stab.Expr.drive rest
+  | "topo" => Stab.Topo.drive rest
+  | "ready" => Stab.Ready.drive rest
+  | "jump" => Stab.Jump.drive rest
+  | "dedup" => Stab.Dedup.drive rest
+  | "queue" => Stab.Queue.drive rest
+  | "cas" => Stab.CasRow.drive rest
+  | "retry" => Stab.Retry.drive rest
+  | "merge" => Stab.Merge.drive rest
+  | "codec" => Stab.Codec.drive rest
+  | "replay" => Stab.Replay.drive rest
+  | "txnscope" => Stab.TxnScope.drive rest
+  | "claim" => Stab.ClaimProtocol.drive rest
+  | "claims" => Stab.Claims.drive rest
+  | "engine" => Stab.Engine.drive rest
   | _ => "bad-request"
 
 partial def loop (h : IO.FS.Stream) (out : IO.FS.Stream) : IO Unit := do
